@@ -427,6 +427,15 @@ def jobRowsOutcome (s : State) (b : Nat) : List Job → List Nat → Option Out
     else if (findGroup s b j.group).isNone then some (.err "fk")
     else jobRowsOutcome s b rest (j.id :: seen)
 
+/-- the id checks `_create_jobs` makes on every spec of the bunch before anything is built or written (400 otherwise):
+the in-update job id lies in `[1, n_jobs]` of the update; every in-update parent id lies in `[1, in-update job id)`;
+every absolute parent id lies in `[1, absolute job id)`.  Only ids are checked, not rows: the parent may belong to a
+bunch (or an earlier update) that has not been inserted yet. -/
+def specIdsOk (u : Update) (sp : JobSpec) : Bool :=
+  decide (1 ≤ sp.relId ∧ sp.relId ≤ u.nJobs) &&
+  sp.relParents.all (fun p => decide (1 ≤ p ∧ p < sp.relId)) &&
+  sp.absParents.all (fun p => decide (1 ≤ p ∧ p < u.startJob + sp.relId - 1))
+
 /-- the checks of `_create_jobs`: `some out` = the transaction answers `out` and changes nothing
 (`first` is kept for the callers; the outcome no longer depends on it separately) -/
 def insertJobsReject (s : State) (b user : Nat) (u : Update) (bt : Batch) (_first : JobSpec) (specs : List JobSpec) :
@@ -434,6 +443,7 @@ def insertJobsReject (s : State) (b user : Nat) (u : Update) (bt : Batch) (_firs
   let js := specs.map (mkJob u b)
   if bt.user ≠ user ∨ bt.deleted then some (.err "not-found")
   else if u.committed then some (.err "committed")
+  else if specs.any (fun sp => !specIdsOk u sp) then some (.err "bad-ids")
   else match jobRowsOutcome s b js [] with
     | some o => some o
     -- `INSERT INTO job_parents`: a repeated (job, parent) pair is a duplicate key -> 400
